@@ -3,10 +3,10 @@ package htools
 import (
 	"bytes"
 	"context"
+	"encoding/json"
 	"fmt"
 	"io"
 	"log"
-	"regexp"
 	"sort"
 	"strings"
 
@@ -23,6 +23,7 @@ type gBranch struct {
 	Target  string `json:"target"`
 	Guard   string `json:"guard,omitempty"` // "" | native | ecmascript | goja
 	Pattern bool   `json:"pattern,omitempty"`
+	PatJS   string `json:"pattern_json,omitempty"` // a pattern of this JSON content instead of the plain one
 }
 
 type gNode struct {
@@ -30,10 +31,19 @@ type gNode struct {
 	Type     string    `json:"type,omitempty"`
 	Branches []gBranch `json:"branches"`
 	NoBr     bool      `json:"nobranching,omitempty"`
+	EmptyBr  bool      `json:"emptybranchlist,omitempty"` // a branch list that is empty but not nil (as "branches": [] loads)
 }
 
 type c20Case struct {
-	Nodes map[string]gNode `json:"nodes"`
+	Nodes  map[string]gNode  `json:"nodes"`
+	Rename map[string]string `json:"rename,omitempty"` // node name (also as branch target) -> the name actually used
+}
+
+func (cs c20Case) name(n string) string {
+	if r, have := cs.Rename[n]; have {
+		return r
+	}
+	return n
 }
 
 type nopCloser struct{ *bytes.Buffer }
@@ -56,10 +66,20 @@ func c20Build(cs c20Case) (*core.Spec, error) {
 		}
 		if !gn.NoBr {
 			n.Branches = &core.Branches{Type: gn.Type}
+			if gn.EmptyBr {
+				n.Branches.Branches = []*core.Branch{}
+			}
 			for _, gb := range gn.Branches {
-				b := &core.Branch{Target: gb.Target}
+				b := &core.Branch{Target: cs.name(gb.Target)}
 				if gb.Pattern {
 					b.Pattern = map[string]interface{}{"a": 1.0}
+				}
+				if gb.PatJS != "" {
+					var x interface{}
+					if err := json.Unmarshal([]byte(gb.PatJS), &x); err != nil {
+						return nil, err
+					}
+					b.Pattern = x
 				}
 				switch gb.Guard {
 				case "native":
@@ -70,7 +90,7 @@ func c20Build(cs c20Case) (*core.Spec, error) {
 				n.Branches.Branches = append(n.Branches.Branches, b)
 			}
 		}
-		spec.Nodes[name] = n
+		spec.Nodes[cs.name(name)] = n
 	}
 	np := noop.NewInterpreter()
 	err := spec.Compile(context.Background(), core.InterpretersMap{"ecmascript": np, "goja": np}, true)
@@ -81,20 +101,6 @@ func setOf(xs []string) string {
 	ys := append([]string{}, xs...)
 	sort.Strings(ys)
 	return strings.Join(ys, ",")
-}
-
-var (
-	dotNodeRe = regexp.MustCompile(`^  ("[^"]*"|[^\s\[\]]+) \[shape=`)
-	dotEdgeRe = regexp.MustCompile(`^  ("[^"]*"|\S+) -> ("[^"]*"|\S*) \[ color=`)
-	merNodeRe = regexp.MustCompile(`^  (n\d+)[\(\[]"(.*)"[\)\]]$`)
-	merEdgeRe = regexp.MustCompile(`^  (n\d+) .*--> (n\d+)$`)
-)
-
-func unq(s string) string {
-	if len(s) >= 2 && s[0] == '"' && s[len(s)-1] == '"' {
-		return s[1 : len(s)-1]
-	}
-	return s
 }
 
 // c20Check returns the violated clauses for one spec.
@@ -191,6 +197,14 @@ func c20Check(cs c20Case) [][2]string {
 		}
 	}
 	sort.Strings(edges)
+	var branchList [][2]string
+	for name, n := range spec.Nodes {
+		if n.Branches != nil {
+			for _, b := range n.Branches.Branches {
+				branchList = append(branchList, [2]string{name, b.Target})
+			}
+		}
+	}
 	// Dot
 	{
 		var buf bytes.Buffer
@@ -199,33 +213,8 @@ func c20Check(cs c20Case) [][2]string {
 			out = append(out, [2]string{"dot-panic/" + where, pm})
 		} else if derr != nil {
 			out = append(out, [2]string{"dot-error", derr.Error()})
-		} else {
-			nodeCount := map[string]int{}
-			var gotEdges []string
-			for _, line := range strings.Split(buf.String(), "\n") {
-				if m := dotEdgeRe.FindStringSubmatch(line); m != nil {
-					gotEdges = append(gotEdges, unq(m[1])+"->"+unq(m[2]))
-				} else if m := dotNodeRe.FindStringSubmatch(line); m != nil {
-					if m[1] == "node" || m[1] == "graph" || m[1] == "edge" {
-						continue // the default-attribute statements of the header
-					}
-					nodeCount[unq(m[1])]++
-				}
-			}
-			for name := range spec.Nodes {
-				if nodeCount[name] != 1 {
-					out = append(out, [2]string{"dot-node-count", fmt.Sprintf("spec node %q drawn %d times", name, nodeCount[name])})
-				}
-			}
-			for name, k := range nodeCount {
-				if _, have := spec.Nodes[name]; !have && (!targeted[name] || k != 1) {
-					out = append(out, [2]string{"dot-stray-node", fmt.Sprintf("node %q (x%d) is neither a spec node nor a placeholder for a branch target", name, k)})
-				}
-			}
-			sort.Strings(gotEdges)
-			if strings.Join(gotEdges, ",") != strings.Join(edges, ",") {
-				out = append(out, [2]string{"dot-edges", fmt.Sprintf("edges drawn %v; branches %v", gotEdges, edges)})
-			}
+		} else if why := dotFaithful(spec, branchList, buf.String()); why != [2]string{} {
+			out = append(out, why)
 		}
 	}
 	// Mermaid
@@ -236,36 +225,8 @@ func c20Check(cs c20Case) [][2]string {
 			out = append(out, [2]string{"mermaid-panic/" + where, pm})
 		} else if merr != nil {
 			out = append(out, [2]string{"mermaid-error", merr.Error()})
-		} else {
-			ids := map[string]string{}
-			nodeCount := map[string]int{}
-			var raw [][2]string
-			for _, line := range strings.Split(buf.String(), "\n") {
-				if m := merNodeRe.FindStringSubmatch(line); m != nil {
-					ids[m[1]] = m[2]
-					nodeCount[m[2]]++
-				} else if m := merEdgeRe.FindStringSubmatch(line); m != nil {
-					raw = append(raw, [2]string{m[1], m[2]})
-				}
-			}
-			var gotEdges []string
-			for _, e := range raw {
-				gotEdges = append(gotEdges, ids[e[0]]+"->"+ids[e[1]])
-			}
-			sort.Strings(gotEdges)
-			for name := range spec.Nodes {
-				if nodeCount[name] != 1 {
-					out = append(out, [2]string{"mermaid-node-count", fmt.Sprintf("spec node %q drawn %d times", name, nodeCount[name])})
-				}
-			}
-			for name, k := range nodeCount {
-				if _, have := spec.Nodes[name]; !have && (!targeted[name] || k != 1) {
-					out = append(out, [2]string{"mermaid-stray-node", fmt.Sprintf("node %q (x%d)", name, k)})
-				}
-			}
-			if strings.Join(gotEdges, ",") != strings.Join(edges, ",") {
-				out = append(out, [2]string{"mermaid-edges", fmt.Sprintf("edges drawn %v; branches %v", gotEdges, edges)})
-			}
+		} else if why := mermaidFaithful(spec, branchList, buf.String()); why != [2]string{} {
+			out = append(out, why)
 		}
 	}
 	return out
@@ -273,7 +234,13 @@ func c20Check(cs c20Case) [][2]string {
 
 func c20Feature(cs c20Case) string {
 	f := map[string]bool{}
+	if len(cs.Rename) > 0 {
+		f["name-or-pattern-content"] = true
+	}
 	for _, n := range cs.Nodes {
+		if n.EmptyBr {
+			f["empty-branch-list"] = true
+		}
 		if n.Action == "native" {
 			f["native-action"] = true
 		}
@@ -324,7 +291,7 @@ func C20(c *vh.Ctx) {
 		}
 		return
 	}
-	c.Rule("every spec graph over node names {start, a, b}: (i) two nodes, each with action {none, native, ecmascript source, goja source}, branching type {message (no action), bindings}, and a branch list of 0-2 branches over target {start, a, b, missing, @v, \"\"} x guard {none, ecmascript source} (plus native / goja guards) x pattern {none, map}; (ii) three nodes with 0-1 branches each; compiled; oracle: Analyze's sets and counts recomputed from the graph, Dot and Mermaid output parsed back line by line (each spec node exactly once, extra nodes only as placeholders for branch targets, edge multiset = branch multiset), no panic, no error. non-trivial = more than one node.")
+	c.Rule("every spec graph over node names {start, a, b}: (i) two nodes, each with action {none, native, ecmascript source, goja source}, branching type {message (no action), bindings}, and a branch list of 0-2 branches over target {start, a, b, missing, @v, \"\"} x guard {none, ecmascript source} (plus native / goja guards) x pattern {none, map}; (ii) three nodes with 0-1 branches each; (iii) a fixed three-node graph whose two free node names range over a list of 30 names (dot keywords, names with spaces, colons, quotes, angle brackets, ampersands, brackets, comment openers, backslashes, format verbs) and whose patterns range over 9 JSON contents (angle brackets, ampersands, quotes, markup, a bare string, arrays, one long enough to be indented); branch lists also as empty-but-not-nil lists; compiled; oracle: Analyze's sets and counts recomputed from the graph, Dot output parsed with the grammar of the dot language (quoted and HTML-like strings, keywords, ports) and matched to the spec graph under a searched correspondence of names (each spec node exactly one node statement whose well-formed label shows its name, extra nodes only as placeholders for branch targets, edge multiset = image of the branch multiset); Mermaid output split into statements and read back (node texts with entities decoded = names, edges through node ids = branches), no panic, no error. non-trivial = more than one node.")
 	targets := []string{"start", "a", "b", "missing", "@v", ""}
 	var kinds []gBranch
 	for _, t := range targets {
@@ -356,6 +323,10 @@ func C20(c *vh.Ctx) {
 			}
 		}
 		nodes = append(nodes, gNode{Action: act, NoBr: true})
+		nodes = append(nodes, gNode{Action: act, Type: "bindings", EmptyBr: true})
+		if act == "" {
+			nodes = append(nodes, gNode{Type: "message", EmptyBr: true})
+		}
 	}
 	if c.Shard == 0 {
 		c.Count("node_configurations", int64(len(nodes)))
@@ -405,4 +376,44 @@ func C20(c *vh.Ctx) {
 			}
 		}
 	}
+	// (iii) node names and patterns of any content: a three-node graph start -> X -> Y (+ a branch to a
+	// missing target and one back to start), X and Y over the name list, the patterns over the pattern list
+	for i, x := range c20Names {
+		for j, y := range c20Names {
+			if x == y {
+				continue
+			}
+			for k, pj := range c20Patterns {
+				for _, act := range []string{"", "native", "ecmascript"} {
+					idx++
+					if !c.Mine(idx) {
+						continue
+					}
+					if c.Expired() {
+						return
+					}
+					_ = i + j + k
+					cs := c20Case{
+						Rename: map[string]string{"a": x, "b": y},
+						Nodes: map[string]gNode{
+							"start": {Type: "message", Branches: []gBranch{{Target: "a", PatJS: pj}, {Target: "b", PatJS: pj, Guard: "ecmascript"}}},
+							"a":     {Action: act, Type: "bindings", Branches: []gBranch{{Target: "b", PatJS: pj}, {Target: "missing " + y}}},
+							"b":     {Type: "message", Branches: []gBranch{{Target: "start", PatJS: pj}, {Target: "a"}}},
+						}}
+					one(cs)
+					if c.WantSample() && k == 1 && act == "" {
+						c.Sample(cs)
+					}
+				}
+			}
+		}
+	}
 }
+
+// names: identifiers the dot language would not take bare (or would take for something else), text that
+// needs escaping in an HTML-like label or a quoted text, and plain ones
+var c20Names = []string{"a", "test-1", "two words", "node", "Edge", "graph", "a:b", `say "hi"`, "x<y", "y>x", "<B>", "p&q", "&amp;", "1st", "é", "a.b", "{x}", "[x]",
+	"a;b", "a,b", "a=b", "->", "//c", "/*c", `a\b`, "a'b", "%d%s", "-", "_", "subgraph"}
+
+var c20Patterns = []string{`{"a":1}`, `{"a":"?<n"}`, `{"a":"x>y"}`, `{"a":"p&q"}`, `{"k":"say \"hi\""}`, `{"a":"</TD><B>"}`, `"plain ?x"`, `["?x",{"b":"&lt;"}]`,
+	`{"alpha":"a long string value","beta":{"gamma":[1,2,3]},"d":"?<x"}`}
